@@ -288,6 +288,8 @@ impl Check for C14C {
             expand: stage != format!("bfs{}", depth - 1),
             order_queries: QUERIES,
             warm_queries: WARM_QUERIES,
+            // the documents with namespaces and with DTD defaults are explored one level less deep
+            max_depth: vec![depth, depth, depth, depth - 1, depth - 1],
         })
     }
     fn case_cap(&self, tier: Tier) -> f64 {
@@ -296,8 +298,8 @@ impl Check for C14C {
     fn meta(&self) -> Meta {
         Meta {
             rule: "explicit-state search over edit histories (as C12) on documents with at least two levels; after every transition two monitors run: (1) along the harness's own pre-order walk of the attached tree (element, then its attributes, then its children) XmlNode::order() is non-zero and strictly increasing; (2) differential: each of 32 node-set queries (all axes, unions in both operand orders, positional predicates on forward and reverse axes, attributes, prefixed name tests through a caller binding, the namespace axis) selects on the edited document the same positions, in the same order, as on XmlDocument::from_raw(document.to_string()) — positions are computed on a walk that merges adjacent character data, as a re-parse does; (3) the same transition is repeated on a document on which 9 queries were evaluated BEFORE the edit with one evaluation context that is kept across the edit: after the edit they must select what they select on the copy that was never queried (set_attribute / remove_attribute also with the names xmlns:p and xmlns, so that in-scope namespaces change under the queries).",
-            bounds_quick: "5 initial documents (one with a namespace declaration and prefixed elements, one with an attribute and a namespace declaration defaulted from the DTD), history depth 3, 1 created node per history, 32 queries",
-            bounds_thorough: "5 initial documents, history depth 4, 1 created node per history, 32 queries",
+            bounds_quick: "5 initial documents (one with a namespace declaration and prefixed elements, one with an attribute and a namespace declaration defaulted from the DTD: these two to depth 2), history depth 3, 1 created node per history, 32 queries",
+            bounds_thorough: "5 initial documents (the last two to depth 3), history depth 4, 1 created node per history, 32 queries",
             assumptions: &["states whose serialization does not re-parse are left to C15"],
             unbounded_total: false,
         }
